@@ -46,8 +46,10 @@ fn observe<C: BitRepr + Verify>(c: &C, parse_back: &dyn Fn(&[u8]) -> String, all
     // failing sink: every k (or a sample of them for long op lists)
     let nops = us.ops.len();
     let ks: Vec<usize> = if all_k || nops <= 400 { (0..nops).collect() } else { (0..nops).step_by(nops / 300 + 1).chain([nops - 1]).collect() };
-    for k in ks {
-        let mut fs = UserSink { fail_at: Some(k), ..UserSink::default() };
+    for (k, transient) in ks.iter().flat_map(|k| [(*k, false), (*k, true)]) {
+        // permanent failure from the k-th operation on, and a transient failure of exactly the k-th call
+        // (a write that carries on after an error would then push further data into the sink)
+        let mut fs = UserSink { fail_at: Some(k), transient, ..UserSink::default() };
         match c.write(&mut fs) {
             Ok(()) => {
                 fail = format!("k{k}_returned_ok");
@@ -439,7 +441,7 @@ pub fn generate(seed: u64, cases: usize, out: &mut dyn FnMut(String)) {
     for &num in &[0u64, 1, 127, 128, 2047, 2048, 65535, 65536, (1 << 21) - 1, 1 << 21, (1 << 26) - 1, 1 << 26, (1 << 31) - 1, 1 << 31, u64::from(u32::MAX)] {
         header_case(4096, 2, 16, 44100, false, num, out);
     }
-    for &num in &[0u64, 1 << 31, (1 << 36) - 1, 1 << 36, (1 << 36) + 5, u64::MAX] {
+    for &num in &[0u64, 127, 128, 1 << 31, (1 << 32) - 1, 1 << 32, (1 << 32) + 5, 5_000_000_000, 1 << 35, (1 << 36) - 1, 1 << 36, (1 << 36) + 5, u64::MAX] {
         header_case(4096, 2, 16, 44100, true, num, out);
     }
 
